@@ -322,7 +322,8 @@ def r2_log_pairing(ctx):
                 else:
                     ok = logs == 0
                     why = "bound as declared for a linear variable" if ok else f"linear variable: {label} bound appended as {norm(e)[:70]} (log10 applied outside `{v}.logarithmic`)"
-                ctx.check(ok, sb.qual + f"#log:{label}:{'scalar' if p.holds(v + ".values == '_'") else 'vector'}:{_pathkey(p, v)}", why, where=sb, node=next((x.node for x in p.effects if x.value is e), lp))
+                kind_ = "scalar" if p.holds(v + ".values == '_'") else "vector"
+                ctx.check(ok, sb.qual + f"#log:{label}:{kind_}:{_pathkey(p, v)}", why, where=sb, node=next((x.node for x in p.effects if x.value is e), lp))
     ctx.floor(n, 8, rule="C10.R2")
     cp = ctx.func(f"{FD}.convert_to_parameters")
     r = _walk(ctx, cp, "walk")
